@@ -33,53 +33,55 @@ def sOut : Nat := 9    -- the returned residual
 
 variable {K : Type} [Add K] [Mul K] [Sub K] [Neg K] [Zero K] [One K] [Div K] [DecidableEq K] [LT K] [DecidableLT K]
 
-def seqs : List (Prog K) → Prog K
-  | [] => .skip
-  | p :: t => .seq p (seqs t)
+/-- `dst = inner_product(x, y)` into a scalar register -/
+def ipR (dst x y : Nat) : Prim K (SEnv K) := .ip (fun e v => upd e dst v) (R x) (R y)
+
+/-- `dst = e(scalars)` on the scalar registers -/
+def ssetR (dst : Nat) (e : SEnv K → K) : Prim K (SEnv K) := .sset (fun env => upd env dst (e env))
 
 /-- `x = norm(v)`: `sqrt(math::norm(inner_product(v, v)))` -/
-def normInto (sqrt : K → K) (dst v : Nat) : Prog K :=
-  .seq (.prim (.ip sTmp v v)) (.prim (.sset dst (fun e => sqrt (Solver.absK (e sTmp)))))
+def normInto (sqrt : K → K) (dst v : Nat) : Prog K (SEnv K) :=
+  .seq (.prim (ipR sTmp v v)) (.prim (ssetR dst (fun e => sqrt (Solver.absK (e sTmp)))))
 
 /-- cg.hpp:181-199, one pass through the loop body including `++iter` -/
-def bodyProg (sqrt : K → K) : Prog K := seqs [
-  .prim (.precond vR vS),                                                   -- P.apply(*r, *s)
-  .prim (.sset sRho2 (fun e => e sRho1)),                                   -- rho2 = rho1
-  .prim (.ip sRho1 vR vS),                                                  -- rho1 = inner_product(*r, *s)
+def bodyProg (sqrt : K → K) : Prog K (SEnv K) := seqs [
+  .prim (.precond (R vR) (R vS)),                                                   -- P.apply(*r, *s)
+  .prim (ssetR sRho2 (fun e => e sRho1)),                                   -- rho2 = rho1
+  .prim (ipR sRho1 vR vS),                                                  -- rho1 = inner_product(*r, *s)
   .ite (fun e => decide (e sFirst ≠ 0))                                     -- if (iter)
-    (.prim (.axpby (fun _ => 1) vS (fun e => e sRho1 / e sRho2) vP))        --   axpby(one, *s, rho1 / rho2, *p)
-    (.prim (.copy vS vP)),                                                  -- else copy(*s, *p)
-  .prim (.spmv (fun _ => 1) vP (fun _ => 0) vQ),                            -- spmv(one, A, *p, zero, *q)
-  .prim (.ip sTmp vQ vP),
-  .prim (.sset sAlpha (fun e => e sRho1 / e sTmp)),                         -- alpha = rho1 / inner_product(*q, *p)
-  .prim (.axpby (fun e => e sAlpha) vP (fun _ => 1) vX),                    -- axpby( alpha, *p, one,  x)
-  .prim (.axpby (fun e => -(e sAlpha)) vQ (fun _ => 1) vR),                 -- axpby(-alpha, *q, one, *r)
+    (.prim (.axpby (fun _ => 1) (R vS) (fun e => e sRho1 / e sRho2) (R vP)))        --   axpby(one, *s, rho1 / rho2, *p)
+    (.prim (.copy (R vS) (R vP))),                                                  -- else copy(*s, *p)
+  .prim (.spmv (fun _ => 1) (R vP) (fun _ => 0) (R vQ)),                            -- spmv(one, A, *p, zero, *q)
+  .prim (ipR sTmp vQ vP),
+  .prim (ssetR sAlpha (fun e => e sRho1 / e sTmp)),                         -- alpha = rho1 / inner_product(*q, *p)
+  .prim (.axpby (fun e => e sAlpha) (R vP) (fun _ => 1) (R vX)),                    -- axpby( alpha, *p, one,  x)
+  .prim (.axpby (fun e => -(e sAlpha)) (R vQ) (fun _ => 1) (R vR)),                 -- axpby(-alpha, *q, one, *r)
   normInto sqrt sRes vR,                                                    -- res_norm = norm(*r)
-  .prim (.sset sCnt (fun e => e sCnt + 1)),                                 -- ++iter
-  .prim (.sset sFirst (fun _ => 1))]
+  .prim (ssetR sCnt (fun e => e sCnt + 1)),                                 -- ++iter
+  .prim (ssetR sFirst (fun _ => 1))]
 
 /-- cg.hpp:170-204 after the prologue -/
-def mainProg (prm : Params K) (sqrt : K → K) : Prog K := seqs [
-  .prim (.sset sEps (fun e => Solver.maxK (prm.tol * e sNrhs) prm.abstol)),        -- eps = max(tol * norm_rhs, abstol)
-  .prim (.sset sRho1 (fun e => Solver.two * e sEps * 1)),                          -- rho1 = 2 * eps * one
-  .prim (.residual vF vX vR),                                               -- residual(rhs, A, x, *r)
+def mainProg (prm : Params K) (sqrt : K → K) : Prog K (SEnv K) := seqs [
+  .prim (ssetR sEps (fun e => Solver.maxK (prm.tol * e sNrhs) prm.abstol)),        -- eps = max(tol * norm_rhs, abstol)
+  .prim (ssetR sRho1 (fun e => Solver.two * e sEps * 1)),                          -- rho1 = 2 * eps * one
+  .prim (.residual (R vF) (R vX) (R vR)),                                               -- residual(rhs, A, x, *r)
   normInto sqrt sRes vR,                                                    -- res_norm = norm(*r)
-  .prim (.sset sCnt (fun _ => 0)),
-  .prim (.sset sFirst (fun _ => 0)),                                        -- iter = 0
-  .loop (fun e => decide (e sEps < Solver.absK (e sRes))) (bodyProg sqrt),         -- for(; iter < maxiter && norm(res) > eps;)
-  .prim (.sset sOut (fun e => e sRes / e sNrhs))]                           -- return (iter, res_norm / norm_rhs)
+  .prim (ssetR sCnt (fun _ => 0)),
+  .prim (ssetR sFirst (fun _ => 0)),                                        -- iter = 0
+  .loop prm.maxiter (fun e => decide (e sEps < Solver.absK (e sRes))) (bodyProg sqrt),         -- for(; iter < maxiter && norm(res) > eps;)
+  .prim (ssetR sOut (fun e => e sRes / e sNrhs))]                           -- return (iter, res_norm / norm_rhs)
 
-/-- the whole `operator()`; the loop fuel of the interpreter is `prm.maxiter` -/
-def prog (prm : Params K) (sqrt : K → K) (eps : K) : Prog K :=
+/-- the whole `operator()` -/
+def prog (prm : Params K) (sqrt : K → K) (eps : K) : Prog K (SEnv K) :=
   .seq (normInto sqrt sNrhs vF)                                             -- norm_rhs = norm(rhs)
     (.ite (fun e => decide (e sNrhs < eps))
-      (if prm.nsSearch then .seq (.prim (.sset sNrhs (fun _ => 1))) (mainProg prm sqrt)   -- norm_rhs = 1
-       else seqs [.prim (.clear vX), .prim (.sset sCnt (fun _ => 0)),       -- clear(x); return (0, norm_rhs)
-                  .prim (.sset sOut (fun e => e sNrhs))])
+      (if prm.nsSearch then .seq (.prim (ssetR sNrhs (fun _ => 1))) (mainProg prm sqrt)   -- norm_rhs = 1
+       else seqs [.prim (.clear (R vX)), .prim (ssetR sCnt (fun _ => 0)),       -- clear(x); return (0, norm_rhs)
+                  .prim (ssetR sOut (fun e => e sNrhs))])
       (mainProg prm sqrt))
 
 /-- the program state of a call `S(A, P, rhs, x)` on a solver with work vectors `ws` -/
-def initState (ws : Solver.CG.Work K) (f x0 : Vec K) : St K :=
+def initState (ws : Solver.CG.Work K) (f x0 : Vec K) : St K (SEnv K) :=
   { vec := fun v => if v = vF then f else if v = vX then x0 else if v = vR then ws.r else if v = vS then ws.s
                     else if v = vP then ws.p else ws.q,
     scal := fun _ => 0 }
